@@ -277,6 +277,20 @@ RCU_ASSUME = ["seq_cst atomics are interleaved cells; the plain fields deleted /
               "is released, the list is destroyed only after every handle has been released"]
 
 
+PARTS = {
+    "C14": dict(
+        lean_files=["ConcVerif/Props/C14_rcu.lean"], components=["rcu"],
+        trusted_base=RCU_TRUST,
+        assumptions=["rcu: compare_exchange_weak does not fail spuriously forever (the registration loop is lock-free; wait-free "
+                     "with every other thread suspended)"] + RCU_ASSUME,
+        partial=["rcu: 'as long as the reader itself is scheduled it completes' is proved as: no mutex event is accepted at a "
+                 "read-side pc, every read-side pc is enabled in every reachable state, begin/++/* take three own steps, the "
+                 "registration loop has a potential (at most 7 after the allocation) that every own step except a spuriously "
+                 "failing CAS decreases and that only another thread's successful push can raise; the fair-scheduler termination "
+                 "step is not mechanised (Base/Live not used here)"]),
+}
+
+
 def register(PROPS, COMPONENTS):
     COMPONENTS["rcu"] = dict(client="rcu", driver="rcu", tap=True, directed_runs=4, quick_runs=1600, thorough_runs=12000,
                              oracle=oracle_rcu,
